@@ -49,7 +49,10 @@ func SchemaSetFromFiles(descFiles *protoregistry.Files, include func(protoreflec
 	}
 
 	for _, enum := range enums {
-		ref, didExist := newRefPlaceholder(pkgSet, enum)
+		ref, didExist, err := newRefPlaceholder(pkgSet, enum)
+		if err != nil {
+			return nil, err
+		}
 		if didExist {
 			continue // was referenced by an earlier message
 		}
@@ -73,6 +76,9 @@ func (ps *SchemaSet) messageSchema(src protoreflect.MessageDescriptor) (RootSche
 	packageName, nameInPackage := splitDescriptorName(src)
 	schemaPackage := ps.Package(packageName)
 	if built, ok := schemaPackage.Schemas[nameInPackage]; ok {
+		if err := built.claim(src); err != nil {
+			return nil, err
+		}
 		if built.To == nil {
 			// When building from reflection, the 'to' should be linked by the
 			// caller which created the ref.
@@ -85,6 +91,7 @@ func (ps *SchemaSet) messageSchema(src protoreflect.MessageDescriptor) (RootSche
 	placeholder := &RefSchema{
 		Package: schemaPackage,
 		Schema:  nameInPackage,
+		source:  src.FullName(),
 	}
 
 	schemaPackage.Schemas[nameInPackage] = placeholder
@@ -119,9 +126,13 @@ func (pkg *Package) schemaRootFromProto(descriptor protoreflect.Descriptor) root
 	}
 }
 
-func newRefPlaceholder(ss RootSet, descriptor protoreflect.Descriptor) (*RefSchema, bool) {
+func newRefPlaceholder(ss RootSet, descriptor protoreflect.Descriptor) (*RefSchema, bool, error) {
 	packageName, nameInPackage := splitDescriptorName(descriptor)
-	return ss.refTo(packageName, nameInPackage)
+	ref, didExist := ss.refTo(packageName, nameInPackage)
+	if err := ref.claim(descriptor); err != nil {
+		return nil, false, err
+	}
+	return ref, didExist, nil
 }
 
 func splitDescriptorName(descriptor protoreflect.Descriptor) (string, string) {
@@ -372,7 +383,10 @@ func (ss *Package) messageProperties(parent RootSchema, src protoreflect.Message
 			rootSchema: ss.schemaRootFromProto(oneof),
 			//oneofDescriptor: oneof,
 		}
-		refPlaceholder, didExist := newRefPlaceholder(ss.PackageSet, oneof)
+		refPlaceholder, didExist, err := newRefPlaceholder(ss.PackageSet, oneof)
+		if err != nil {
+			return nil, err
+		}
 		if didExist {
 			return nil, fmt.Errorf("placeholder already exists for oneof wrapper %q", oneofName)
 		}
@@ -1240,7 +1254,10 @@ func buildMessageFieldSchema(pkg *Package, context fieldContext, src protoreflec
 
 	isOneofWrapper := isOneofWrapper(msg, msgOptions)
 
-	ref, didExist := newRefPlaceholder(pkg.PackageSet, msg)
+	ref, didExist, err := newRefPlaceholder(pkg.PackageSet, msg)
+	if err != nil {
+		return nil, err
+	}
 	if !didExist {
 		var err error
 		if isOneofWrapper {
@@ -1276,7 +1293,10 @@ func buildMessageFieldSchema(pkg *Package, context fieldContext, src protoreflec
 }
 
 func buildEnumFieldSchema(pkg *Package, context fieldContext, src protoreflect.FieldDescriptor, ext protoFieldExtensions) (*EnumField, error) {
-	ref, didExist := newRefPlaceholder(pkg.PackageSet, src.Enum())
+	ref, didExist, err := newRefPlaceholder(pkg.PackageSet, src.Enum())
+	if err != nil {
+		return nil, err
+	}
 	if !didExist {
 		built, err := pkg.buildEnum(src.Enum())
 		if err != nil {
